@@ -26,7 +26,11 @@ vars == <<row, out, reqs>>
 EvLogs == {"none", "unreadable", "nomatch", "raw", "raw_uri", "var_ok", "var_missing", "var_missing_uri", "var_ok_uri", "local_kind", "uri",
            \* logs with two kinds of local locator (the variable event first): raw data takes precedence
            "var_ok_then_raw", "var_missing_then_raw"}
-Quotes == {"none", "unparseable", "snp_extra", "snp_noextra", "report_only", "tdx", "certtable_extra", "certtable_noextra",
+\* "snp_bare_*": the go-sev-guest Attestation message itself instead of one wrapped in a go-tpm-tools
+\* Attestation: another serialisation of the same evidence, with the same outcome
+SnpExtra == {"snp_extra", "snp_bare_extra"}
+SnpNoExtra == {"snp_noextra", "snp_bare_noextra"}
+Quotes == {"none", "unparseable", "snp_extra", "snp_noextra", "snp_bare_extra", "snp_bare_noextra", "report_only", "tdx", "certtable_extra", "certtable_noextra",
            "snp_short_meas", "tdx_short_mrtd"}      \* a report / quote whose measurement is not 48 bytes long
 Providers == {"none", "snp_extra", "snp_noextra", "failing"}
 Getters == {"none", "ok", "failing"}
@@ -51,8 +55,8 @@ FromEventLogLegacy(r) ==
 \* result of fromQuote: <<blob, object-name kind, error?>>
 FromQuote(q) ==
   CASE q \in {"none", "unparseable"} -> <<"", "", TRUE>>
-    [] q = "snp_extra" -> <<"quote_extra", IF Design = "legacy" THEN "" ELSE "fullq", FALSE>>
-    [] q \in {"snp_noextra", "report_only", "tdx"} -> <<"", "fullq", FALSE>>
+    [] q \in SnpExtra -> <<"quote_extra", IF Design = "legacy" THEN "" ELSE "fullq", FALSE>>
+    [] q \in SnpNoExtra \cup {"report_only", "tdx"} -> <<"", "fullq", FALSE>>
     [] q = "certtable_extra" -> <<"quote_extra", "", FALSE>>     \* no measurement in a bare certificate table
     [] q = "certtable_noextra" -> <<"", IF Design = "legacy" THEN "short" ELSE "", FALSE>>
     [] q \in {"snp_short_meas", "tdx_short_mrtd"} -> <<"", IF Design = "legacy" THEN "short" ELSE "", FALSE>>
@@ -92,7 +96,7 @@ Extract(r) ==
 Local(r) ==
   IF r.evlog \in {"raw", "raw_uri", "var_ok_then_raw", "var_missing_then_raw"} THEN "evlog_raw"
   ELSE IF r.evlog \in {"var_ok", "var_ok_uri"} THEN "evlog_var"
-  ELSE IF r.quote \in {"snp_extra", "certtable_extra"} THEN "quote_extra"
+  ELSE IF r.quote \in SnpExtra \cup {"certtable_extra"} THEN "quote_extra"
   ELSE "none"
 
 \* ---------------- path confinement ----------------
@@ -138,7 +142,7 @@ C16_FetchOnlyForMeasurement ==
   row.mode = "sources" => \A i \in 1 .. Len(reqs) : reqs[i] \in {"obj_full_quote", "obj_full_provider", "uri_from_log"}
 \* the object asked for, and the evidence returned, are those of the supplied attestation whenever it
 \* carries a full-length measurement: the local machine's own quote is only consulted otherwise
-HasFullMeasurement(q) == q \in {"snp_extra", "snp_noextra", "report_only", "tdx"}
+HasFullMeasurement(q) == q \in SnpExtra \cup SnpNoExtra \cup {"report_only", "tdx"}
 C16_SuppliedDecides ==
   out # "pending" /\ row.mode = "sources" /\ HasFullMeasurement(row.quote) =>
      out # "provider_extra" /\ \A i \in 1 .. Len(reqs) : reqs[i] # "obj_full_provider"
